@@ -188,6 +188,14 @@ int w_vm_register_dummy(void* p, int kind, const char* name, int prec)
     if (rt->sqfop_exists_binary(n)) return 0;
     rt->register_sqfop(binary((short)prec, n, t_any(), t_any(), "", dummy_b)); return 1;
 }
+// ---- value construction / equality / hashing kernels (value::operator==, data::equals, std::hash<value>)
+const value* w_val_new_scalar(float f) { return new value(f); }
+const value* w_val_new_bool(int b) { return new value(b != 0); }
+const value* w_val_new_string(const char* p, size_t n) { return new value(std::string(p, n)); }
+const value* w_val_new_nil() { return new value(); }
+const value* w_val_new_array(size_t n, const value** elems) { std::vector<value> v; for (size_t i = 0; i < n; i++) v.push_back(*elems[i]); return new value(v); }
+int w_val_equals(const value* a, const value* b) { return (*a == *b) ? 1 : 0; }
+size_t w_val_hash(const value* a) { return std::hash<value>()(*a); }
 // ---- string quoting kernels (d_string::to_string_sqf / from_sqf) and the CLI pretty printer (sqf_formatter)
 static size_t copy_out(const std::string& s, char* buf, size_t cap) { size_t n = s.length() < cap ? s.length() : cap; for (size_t i = 0; i < n; i++) buf[i] = s[i]; return s.length(); }
 size_t w_str_quote(const char* in, size_t n, char* out, size_t cap) { d_string d(std::string(in, n)); return copy_out(d.to_string_sqf(), out, cap); }
